@@ -127,6 +127,11 @@ def run(ctx):
             v = strip(v)
             if default is None:
                 return v == ("attr", ("param", sp), attr)
+            src = ("attr", ("param", sp), attr)
+            if v[0] == "ite" and strip(v[1])[0] == "cmp" and strip(v[1])[1] in ("is", "is not") and strip(strip(v[1])[2]) == src and strip(v[1])[3] == ("const", None):
+                # `default if x is None else x` / `x if x is not None else default` (e.g. an or_default helper seen through)
+                th, el = (strip(v[2]), strip(v[3])) if strip(v[1])[1] == "is" else (strip(v[3]), strip(v[2]))
+                return is_const(th) and th[1] == default and type(th[1]) is type(default) and el == src
             return v[0] == "call" and v[1][0] == "dyn" and v[1][1][0] == "localfunc" and v[1][1][1] == "or_default" and strip(v[2][0]) == ("attr", ("param", sp), attr) \
                 and is_const(v[2][1]) and v[2][1][1] == default
         for prop, (attr, cattr, default) in CHAINS.items():
@@ -158,7 +163,8 @@ def run(ctx):
                        construct=f"cmd.{cattr}", detail={"value": show(v)[:100] if v else None},
                        fail=f"cmd.{cattr} receives `{show(v)[:80] if v else 'nothing'}` instead of self.{attr}")
         od = [n for n in ast.walk(ap.node) if isinstance(n, ast.FunctionDef) and n.name == "or_default"]
-        od_ok = len(od) == 1 and len(od[0].body) == 1 and isinstance(od[0].body[0], ast.Return) and \
+        uses_local = any(x[0] == "localfunc" and x[1] == "or_default" for k, v in stmt_state.env.items() if cmd_key and k.startswith(cmd_key + ".") for x in subterms(v))
+        od_ok = (not uses_local and not od) or len(od) == 1 and len(od[0].body) == 1 and isinstance(od[0].body[0], ast.Return) and \
             norm(od[0].body[0].value) == f"{od[0].args.args[0].arg} if {od[0].args.args[0].arg} is not None else {od[0].args.args[1].arg}"
         ctx.ob("C01.a", ap.qual, od_ok, "or_default(v, d) returns v unless v is None", func=ap.qual, file=ap.module.rel, construct="or_default", fail="or_default no longer passes known values through unchanged")
     td = ctx.fn(f"{AC}.toggle_display")
@@ -183,19 +189,31 @@ def run(ctx):
     send = ctx.fn(f"{LAN}.send")
     ss = summarize(prog, send)
     lp = send.params[0]
-    writes = [(n, ss.ta.terms_at.get(n)) for n in ast.walk(send.node) if isinstance(n, ast.Call) and attr_call(n, "_protocol", "write")]
+    from ..helpers import term_lookup, unknown_callee, with_helpers
+    stl = term_lookup(prog, send)
+    send_fns = with_helpers(prog, send)
+    writes = [(n, stl(n)) for f_ in send_fns for n in ast.walk(f_.node) if isinstance(n, ast.Call) and attr_call(n, "_protocol", "write")]
     w_ok = bool(writes) and all(t is not None and call_is(strip(t[2][0]), "msmart.lan._Packet.encode") and strip(strip(t[2][0])[2][-2]) == ("attr", ("param", lp), "_device_id")
                                 and strip(strip(t[2][0])[2][-1]) == ("param", send.params[1]) for n, t in writes)
     ctx.ob("C01.c", send.qual, w_ok, "LAN.send writes _Packet.encode(self._device_id, data) and nothing else", func=send.qual, file=send.module.rel, construct="self._protocol.write(packet)",
            fail="LAN.send does not write exactly the V2-wrapped frame for this device id")
     # every element appended to the result comes from self._read() / self._read_available()
-    apps = [n for n in ast.walk(send.node) if isinstance(n, ast.Call) and isinstance(n.func, ast.Attribute) and n.func.attr == "append" and isinstance(n.func.value, ast.Name)]
     ret_names = {n.value.id for n in ast.walk(send.node) if isinstance(n, ast.Return) and isinstance(n.value, ast.Name)}
+    # appends to the returned list: in send itself, or in a helper that receives the list as an argument (once per call site)
+    apps = [n for n in ast.walk(send.node) if isinstance(n, ast.Call) and isinstance(n.func, ast.Attribute) and n.func.attr == "append" and isinstance(n.func.value, ast.Name)
+            and n.func.value.id in ret_names]
+    for c in [n for n in ast.walk(send.node) if isinstance(n, ast.Call)]:
+        h = unknown_callee(prog, send, c)
+        if h is None:
+            continue
+        hp = h.params[1:] if h.kind in ("method", "classmethod") else h.params
+        passed = {p for p, a in zip(hp, c.args) if isinstance(a, ast.Name) and a.id in ret_names} | \
+                 {k.arg for k in c.keywords if isinstance(k.value, ast.Name) and k.value.id in ret_names}
+        apps += [n for n in ast.walk(h.node) if isinstance(n, ast.Call) and isinstance(n.func, ast.Attribute) and n.func.attr == "append" and isinstance(n.func.value, ast.Name)
+                 and n.func.value.id in passed]
     srcs = []
     for a in apps:
-        if a.func.value.id not in ret_names:
-            continue
-        t = ss.ta.terms_at.get(a.args[0])
+        t = stl(a.args[0])
         ts = strip(t) if t else None
         kind = None
         if ts is not None and ts[0] == "await" and call_is(strip(ts[1]), f"{LAN}._read"):
